@@ -113,3 +113,20 @@ def validate_trace(module: str, cfg: str, trace_file: pathlib.Path, *, timeout: 
     # normalise: TLC serialises tuples as lists
     verdict["fails"] = [list(f) for f in verdict.get("fails", [])]
     return verdict
+
+
+def apalache_check(module: str, *, init: str, inv: str, length: int, cinit: str | None = None, timeout: int = 1800) -> dict:
+    """One bounded Apalache run on spec/apalache/<module>.tla (used for inductive invariants: `init` = IndInit, length 1)."""
+    out = WORK / "apalache" / f"{module}-{init}-{inv}-{os.getpid()}"
+    if out.exists():
+        shutil.rmtree(out, ignore_errors=True)
+    out.mkdir(parents=True, exist_ok=True)
+    args = ["apalache-mc", "check", f"--init={init}", f"--inv={inv}", f"--length={length}", f"--out-dir={out}"]
+    if cinit:
+        args.append(f"--cinit={cinit}")
+    args.append(f"{module}.tla")
+    rc, text, wall = _run(args, timeout=timeout, cwd=str(SPEC / "apalache"))
+    shutil.rmtree(out, ignore_errors=True)
+    ok = rc == 0 and "EXITCODE: OK" in text
+    return {"module": "apalache/" + module, "init": init, "inv": inv, "length": length, "ok": ok, "wall_s": round(wall, 2),
+            "output_tail": "" if ok else text[-1500:]}
